@@ -108,7 +108,9 @@ def oracle(ctx, line, res):
                     ok = type(r.magnitude) is type(q.magnitude) and r.unit is q.unit and r.magnitude == q.magnitude
                     if how in Q_TEXT and not ok and type(r.magnitude) is type(q.magnitude):
                         ok2, _a, _b = quantity_equal(ctx, Quantity(float(r.magnitude), r.unit), Quantity(float(q.magnitude), q.unit))
-                        ok = ok2
+                        # the unit travels as text and may come back as an equal unit (kg for k·g); the
+                        # Decimal magnitude travels as its own exact text and must come back identical
+                        ok = ok2 and r.magnitude == q.magnitude
                 else:
                     ok, _a, _b = quantity_equal(ctx, r, q)
                     ok = ok and type(r.magnitude) is type(q.magnitude)
@@ -134,6 +136,11 @@ def magnitude_token(rng):
         return "i:%d" % rng.choice([1, 2, 3, -4, 7, 10, 0, 250, 10 ** 9, 2 ** 70, rng.randint(-10 ** 6, 10 ** 6)])
     if r < 0.7:
         return ftok(rng.choice([1.0, 2.5, -0.75, 1e-3, 12345.678, 0.1, 1e22, 1e-7, -0.0, rng.uniform(-100, 100)]))
+    if r < 0.78:
+        # Decimals with more significant digits than the default context keeps (28): a codec that
+        # re-rounds (normalize(), +x, quantize) loses them; the property quantifies over every Decimal
+        k = rng.choice([30, 34, 40, 50])
+        return "d:%d/%d" % (rng.choice([1, -1]) * (10 ** k + rng.randint(1, 999)), rng.choice([10 ** k, 10 ** (k // 2), 1]))
     return "d:%d/%d" % (rng.randint(-99999, 99999), rng.choice([1, 2, 10, 100, 1000, 8]))
 
 
